@@ -71,6 +71,9 @@ func realInput(in *Input, order int) (map[string]sarama.ConsumerGroupMemberMetad
 	}
 	for _, m := range ms {
 		meta := sarama.ConsumerGroupMemberMetadata{Version: 1, Topics: append([]string(nil), m.Subs...)}
+		if in.Dup == "all" || in.Dup == "first" && m.ID == in.Members[0].ID {
+			meta.Topics = append(meta.Topics, meta.Topics[0]) // Consume(ctx, []string{"t0", "t0"}, h): nothing removes the duplicate
+		}
 		if rng != nil {
 			rng.Shuffle(len(meta.Topics), func(a, b int) { meta.Topics[a], meta.Topics[b] = meta.Topics[b], meta.Topics[a] })
 		}
